@@ -112,6 +112,7 @@ def step (_ : Unit) (ts : List String) : Unit × String :=
     | ["sem", ops] => sem ops
     | ["semc", p, _, k] => s!"ok got={(p.toNat?.getD 0) * (k.toNat?.getD 0)} value=0"
     | ["cond", _, _] => "ok"
+    | ["condt", _, _, _] => "ok"
     | ["trace", "-"] => acceptTrace []
     | ["trace", evs] => acceptTrace (evs.splitOn ",")
     | _ => "bad-op"
